@@ -45,6 +45,7 @@ type shared struct {
 	fp    uint64
 	dump  string
 	prog  lisp.Program
+	std   bool // the program names a standard-library package: its runtimes are built with the stdlib loaded
 }
 
 // sharedReader hands out the SAME parsed expressions on every Read.
@@ -57,11 +58,22 @@ func parseShared(src string) (*shared, error) {
 	if err != nil {
 		return nil, err
 	}
-	s := &shared{src: src, exprs: exprs}
+	s := &shared{src: src, exprs: exprs, std: needsStdlib(src)}
 	s.fp = lisp.SealedASTFingerprint(exprs)
 	s.dump = dumpAll(exprs)
 	s.prog, _ = lisp.ReadProgram(sharedReader{exprs}, "shared", strings.NewReader(""))
 	return s, nil
+}
+
+var stdlibPrefixes = []string{"elpspath:", "json:", "string:", "s:", "regexp:", "base64:", "time:", "math:"}
+
+func needsStdlib(src string) bool {
+	for _, p := range stdlibPrefixes {
+		if strings.Contains(src, "("+p) || strings.Contains(src, " "+p) || strings.Contains(src, "'"+p) {
+			return true
+		}
+	}
+	return false
 }
 
 // dump is an independent structural rendering of a parsed tree: type, name,
@@ -487,6 +499,13 @@ var concurrentPrograms = []string{
 	"(let ([v (vector whoami)]) (append! v (+ whoami 1)) (append! v (+ whoami 2)) (list v (slice 'vector v 1 3)))",
 	"(or (and (> whoami 99) 'big) (list whoami) 'unreached)",
 	"(flet ([f (x &optional y) (list x y whoami)]) (list (f whoami) (f 1 whoami)))",
+	// standard-library operations that store a caller's value by reference or build values from program text
+	"(let ([v (vector 0 0 0)]) (elpspath:?set! v '(range 0 3) '(3 1 2)) (stable-sort < v) (list v '(3 1 2) whoami))",
+	"(let* ([d (sorted-map \"k\" (vector whoami 1))] [e (elpspath:?set d \"k\" 0 (append 'vector '(9 8)))]) (elpspath:?set! e \"k\" 0 0 whoami) (list d e (elpspath:? e \"k\" '* ) '(9 8)))",
+	"(let ([m (json:load-string \"{\\\"b\\\":[3,1,2],\\\"a\\\":[]}\")]) (append! (get m \"a\") whoami) (stable-sort < (get m \"b\")) (list m (json:dump-string m) (json:load-string \"[]\")))",
+	"(list (string:join (list \"a\" (to-string whoami) \"b\") \"-\") (string:split \"x,y,z\" \",\") (format-string \"{}/{}\" whoami '(1 2)))",
+	"(s:deftype \"small\" s:int (s:lt 10)) (list (s:validate small whoami) (s:validate (s:make-validator \"v\" s:array (s:of small) (s:len 2)) (vector whoami 3)))",
+	"(list (regexp:regexp-match? (regexp:regexp-compile \"^[0-9]+$\") (to-string whoami)) (base64:encode (to-bytes (to-string whoami))) (math:abs (- 0 whoami)))",
 }
 
 // ---------------------------------------------------------------------------
@@ -564,8 +583,8 @@ func historyViolates(src string, h []int) (string, string) {
 	refs := map[int]*el.Env{}
 	for step, rt := range h {
 		if envs[rt] == nil {
-			envs[rt] = newEnv(false)
-			refs[rt] = newEnv(false)
+			envs[rt] = newEnv(s.std)
+			refs[rt] = newEnv(s.std)
 		}
 		got := loadShared(envs[rt], s, nil)
 		want := refs[rt].Load(src)
@@ -597,7 +616,7 @@ type solo struct {
 }
 
 func soloRun(s *shared, id int) solo {
-	env := newEnv(false)
+	env := newEnv(s.std)
 	who(env, id)
 	ctx := el.NewStepCtx()
 	o := loadShared(env, s, ctx)
@@ -631,7 +650,7 @@ func scheduleExplore(r *core.Run, src string, k, bound int, stop func() bool) {
 		bodies := make([]sched.Body, k)
 		for i := 0; i < k; i++ {
 			i := i
-			envs[i] = newEnv(false)
+			envs[i] = newEnv(s.std)
 			who(envs[i], i)
 			bodies[i] = func(ctx context.Context) {
 				o := loadShared(envs[i], s, ctx)
@@ -743,7 +762,7 @@ func freeRunning(r *core.Run) {
 			go func(id int) {
 				defer wg.Done()
 				for it := 0; it < 6; it++ {
-					env := newEnv(false)
+					env := newEnv(s.std)
 					loadShared(env, s, nil)
 					loadShared(env, s, context.Background())
 				}
@@ -887,7 +906,7 @@ func replaySchedule(k scase) (bool, string) {
 		bodies := make([]sched.Body, k.Threads)
 		for i := range bodies {
 			i := i
-			env := newEnv(false)
+			env := newEnv(s.std)
 			who(env, i)
 			bodies[i] = func(ctx context.Context) {
 				o := loadShared(env, s, ctx)
